@@ -48,8 +48,9 @@ def H(name, ta, tb, scen, tc=None, hashk=0, rounds=1, unroll=1, depth=1, timeout
     h.update(kw)
     return h
 HARNESSES = [
-  H('find_era', 'find', 'era', [S([I(2)], [2], [2])], desc='find(const_accessor,k) || erase(k)'),
-  H('ins_ins', 'ins', 'ins', [S([], [2], [2])], desc='insert(accessor,k) || insert(accessor,k) on the empty map (first insert grows the table 2 -> 256 buckets): exactly one true'),
+  H('find_era', 'find', 'era', [S([I(2), C(2)], [2], [2])], desc='find(const_accessor,k) || erase(k): accessor holder vs erase of the same element'),
+  H('ins_ins', 'ins', 'ins', [S([I(3)], [2], [2], KX0=3)], desc='insert(accessor,k) || insert(accessor,k), bucket of k still to be rehashed from its (empty) parent: exactly one true'),
+  H('era_era', 'era', 'era', [S([I(2), C(2)], [2], [2])], desc='erase(k) || erase(k): exactly one true, node freed once'),
 ]
 OUTSIDE = []
 STUBS = []
